@@ -104,6 +104,9 @@ func init() {
 	rt("IteInt", func(x *Exec, fr *frame, args []Value) Value {
 		return x.cx.Ite(args[0].(*Term), args[1].(*Term), args[2].(*Term))
 	})
+	rt("IteU8", func(x *Exec, fr *frame, args []Value) Value {
+		return x.cx.Ite(args[0].(*Term), args[1].(*Term), args[2].(*Term))
+	})
 	rt("IteU32", func(x *Exec, fr *frame, args []Value) Value {
 		return x.cx.Ite(args[0].(*Term), args[1].(*Term), args[2].(*Term))
 	})
@@ -438,6 +441,7 @@ func init() {
 		}
 		return Iface{T: rtypeMarker, V: RType{i.T}}
 	})
+	reg("internal/reflectlite.TypeOf", intrinsics["reflect.TypeOf"])
 	reg("reflect.DeepEqual", func(x *Exec, fr *frame, args []Value) Value {
 		return x.deepEqual(args[0], args[1], 0)
 	})
